@@ -393,6 +393,30 @@ def check_case(case):
             if idx[0] == slice(None):
                 same_time(y, sub, "trailing")
             res.hits["trailing-axis selection"] += 1
+    if cls in ("RadioSignal", "IntensitySignal") and n >= 2:
+        # several trailing axes and index lists / integers / None on them, also SEPARATED by slices (NumPy then moves the
+        # indexed axes to the front): time and channel labels must stay what they were, or the index must be refused
+        z5 = factory.make(cls, np.zeros((6, n, 3, 2, 2)), sample_rate=2 * u.Hz, chan_bw=bw, fc=fc, align=case["align"], start_name="iso")
+        for idx, name in (((slice(None), slice(None), [0], slice(None), 0), "z[:, :, [0], :, 0]"),
+                          ((slice(None), slice(1, None), [0, 1], None, 1), "z[:, 1:, [0, 1], None, 1]"),
+                          ((slice(None), slice(None), 1, slice(None), [0, 1]), "z[:, :, 1, :, [0, 1]]"),
+                          ((slice(2, None), slice(None), [0, 2], [0, 1]), "z[2:, :, [0, 2], [0, 1]]"),
+                          ((slice(None), slice(None), [1], [0]), "z[:, :, [1], [0]]")):
+            s0, s1, _ = idx[1].indices(n)
+            t0_, t1_, _ = idx[0].indices(6)
+            res.transitions += 1
+            try:
+                y = z5[idx]
+            except (IndexError, ValueError):
+                res.hits["index on trailing axes refused"] += 1
+                continue
+            sub = {"op": name}
+            if len(y) != t1_ - t0_ or y.nchan != s1 - s0:
+                res.violation("trailing|index lists moved the time / channel axis", f"{name} on shape (6, {n}, 3, 2, 2): result has "
+                              f"{len(y)} samples x {y.nchan} channels (shape {y.shape}), expected {t1_ - t0_} x {s1 - s0}", case, sub)
+                continue
+            check_labels(res, y, want[s0:s1], 2, bwx, scale, case, sub, "trailing")
+            res.hits["index lists on trailing axes"] += 1
     if cls == "DualPolarizationSignal":
         y = z[:, :, :, ] if z.ndim > 3 else z[:, :, 0:2]
         res.transitions += 1
